@@ -1,75 +1,223 @@
 import BreezyVerif.Model.C52
 /-!
-C52 — helper definitions and the single-step lemma about `applyFlags`.
+C52 — helper definitions and the single-step lemmas about `applyFlags`.
 -/
 namespace BreezyVerif.C52
 
-/-- what a transition may do to the observation: history, tags and format tag
-stay; a tree that is kept is untouched; a tree that goes away had no pending
-changes; a tree that appears is the clean tree of the tip -/
-def Keeps (l l' : Loc) : Prop :=
-  l'.tip = l.tip ∧ l'.hist = l.hist ∧ l'.tags = l.tags ∧ l'.format = l.format ∧
+/-! ### tag dictionaries -/
+
+/-- every definition of `a` is a definition of `b` -/
+def TagsSub (a b : Tags) : Prop := ∀ n v, lookupTag a n = some v → lookupTag b n = some v
+
+/-- no tag name has two different definitions in `a` and `b` -/
+def NoConflict (a b : Tags) : Prop := ∀ n v w, lookupTag a n = some v → lookupTag b n = some w → v = w
+
+/-- every definition of `ts` comes from `a` or from `b` -/
+def TagsFrom (a b ts : Tags) : Prop :=
+  ∀ n v, lookupTag ts n = some v → lookupTag a n = some v ∨ lookupTag b n = some v
+
+theorem lookupTag_append (a b : Tags) (n : Nat) :
+    lookupTag (a ++ b) n = match lookupTag a n with | some v => some v | none => lookupTag b n := by
+  induction a with
+  | nil => simp [lookupTag]
+  | cons p a ih =>
+    obtain ⟨k, v⟩ := p
+    simp only [List.cons_append, lookupTag]
+    split <;> simp_all
+
+/-- `_reconcile_tags`: the destination's definition wins, otherwise the source's -/
+theorem lookupTag_mergeTo (src dest : Tags) (n : Nat) :
+    lookupTag (mergeTo src dest) n = match lookupTag dest n with | some v => some v | none => lookupTag src n := by
+  induction src generalizing dest with
+  | nil => simp only [mergeTo, lookupTag]; split <;> simp_all
+  | cons p src ih =>
+    obtain ⟨k, v⟩ := p
+    simp only [mergeTo]
+    cases hk : lookupTag dest k with
+    | some w =>
+      simp only [ih, lookupTag]
+      cases hd : lookupTag dest n with
+      | some x => rfl
+      | none =>
+        by_cases hkn : (k == n) = true
+        · have : k = n := by simpa using hkn
+          subst this; simp_all
+        · simp [hkn]
+    | none =>
+      simp only [ih, lookupTag_append, lookupTag]
+      cases hd : lookupTag dest n with
+      | some x => rfl
+      | none =>
+        by_cases hkn : (k == n) = true
+        · simp [hkn]
+        · simp only [hkn]
+          cases lookupTag src n <;> simp
+
+theorem tagsSub_refl (a : Tags) : TagsSub a a := fun _ _ h => h
+theorem tagsSub_trans {a b c : Tags} (h1 : TagsSub a b) (h2 : TagsSub b c) : TagsSub a c :=
+  fun n v h => h2 n v (h1 n v h)
+theorem noConflict_self (a : Tags) : NoConflict a a := by
+  intro n v w h1 h2; rw [h1] at h2; exact Option.some.inj h2
+
+theorem mergeTo_keeps_source (src dest : Tags) (h : NoConflict src dest) : TagsSub src (mergeTo src dest) := by
+  intro n v hv
+  rw [lookupTag_mergeTo]
+  cases hd : lookupTag dest n with
+  | none => simpa using hv
+  | some w => have := h n v w hv hd; subst this; rfl
+
+theorem mergeTo_keeps_dest (src dest : Tags) : TagsSub dest (mergeTo src dest) := by
+  intro n v hv
+  rw [lookupTag_mergeTo, hv]
+
+theorem mergeTo_from (src dest : Tags) : TagsFrom src dest (mergeTo src dest) := by
+  intro n v hv
+  rw [lookupTag_mergeTo] at hv
+  cases hd : lookupTag dest n with
+  | none => rw [hd] at hv; exact Or.inl (by simpa using hv)
+  | some w => rw [hd] at hv; exact Or.inr hv
+
+/-! ### one transition -/
+
+/-- what the branch at the bind location looks like never changes its tip / history; its tags only grow;
+local and remote tags stay conflict-free and come from the tags at the start -/
+def RefKeeps (l l' : Loc) : Prop :=
+  l'.refTip = l.refTip ∧ l'.refHist = l.refHist ∧
+  TagsSub l.tags l'.tags ∧ TagsSub l.refTags l'.refTags ∧
+  TagsFrom l.tags l.refTags l'.tags ∧ TagsFrom l.tags l.refTags l'.refTags ∧
+  NoConflict l'.tags l'.refTags
+
+/-- the history behind a revision is a function of the revision; local and remote tags do not conflict -/
+def RefInv (l : Loc) : Prop := (l.refTip = l.tip → l.refHist = l.hist) ∧ NoConflict l.tags l.refTags
+
+/-- what a transition may do to the working tree: a tree that is kept is untouched; a tree that goes away had no
+pending changes unless forced; a tree that appears is the clean tree of the (new) tip -/
+def TreeKeeps (force : Bool) (l l' : Loc) : Prop :=
   (l.tree = true → l'.tree = true → l'.treeCode = l.treeCode ∧ l'.dirty = l.dirty) ∧
-  (l.tree = true → l'.tree = false → l.dirty = false) ∧
-  (l.tree = false → l'.tree = true → l'.dirty = false ∧ l'.treeCode = cleanCode l.tip)
+  (l.tree = true → l'.tree = false → l.dirty = false ∨ force = true) ∧
+  (l.tree = false → l'.tree = true → l'.dirty = false ∧ l'.treeCode = cleanCode l'.tip)
+
+/-- tip and history: unchanged, or — only when the local branch is replaced by a reference — those of the
+branch at the bind location -/
+def TipKeeps (l l' : Loc) : Prop :=
+  (l'.tip = l.tip ∧ l'.hist = l.hist) ∨ (l'.tip = l.refTip ∧ l'.hist = l.refHist)
+
+/-- what every transition (forced or not) guarantees -/
+def KeepsF (force : Bool) (l l' : Loc) : Prop :=
+  TipKeeps l l' ∧ l'.format = l.format ∧ RefKeeps l l' ∧ TreeKeeps force l l'
+
+/-- what a transition that is not forced guarantees: tip and history stay -/
+def Keeps (l l' : Loc) : Prop :=
+  l'.tip = l.tip ∧ l'.hist = l.hist ∧ KeepsF false l l'
 
 /-- a clean working tree is the tree of the tip -/
 def TreeInv (l : Loc) : Prop := l.tree = true → l.dirty = false → l.treeCode = cleanCode l.tip
 
-def core (l : Loc) : Nat × Nat × Nat × Nat := (l.tip, l.hist, l.tags, l.format)
-def treePart (l : Loc) : Bool × Bool × Nat := (l.tree, l.dirty, l.treeCode)
+theorem refKeeps_refl (l : Loc) (h : NoConflict l.tags l.refTags) : RefKeeps l l :=
+  ⟨rfl, rfl, tagsSub_refl _, tagsSub_refl _, fun _ _ h => Or.inl h, fun _ _ h => Or.inr h, h⟩
+
+theorem treeKeeps_refl (force : Bool) (l : Loc) : TreeKeeps force l l := by
+  refine ⟨?_, ?_, ?_⟩ <;> intro a b <;> simp_all
+
+theorem keepsF_refl (force : Bool) (l : Loc) (h : NoConflict l.tags l.refTags) : KeepsF force l l :=
+  ⟨Or.inl ⟨rfl, rfl⟩, rfl, refKeeps_refl l h, treeKeeps_refl force l⟩
+
+theorem keeps_refl (l : Loc) (h : NoConflict l.tags l.refTags) : Keeps l l := ⟨rfl, rfl, keepsF_refl false l h⟩
+
+/-- the part of a location the stages other than `stBranch` and `stTree` never touch -/
+def core (l : Loc) : Nat × Nat × Nat × Tags × Nat × Nat × Tags × Bool × Bool × Nat :=
+  (l.tip, l.hist, l.format, l.tags, l.refTip, l.refHist, l.refTags, l.tree, l.dirty, l.treeCode)
 
 @[simp] theorem core_stRepo (f l) : core (stRepo f l) = core l := by unfold stRepo; split <;> rfl
-@[simp] theorem core_stBranch (f l) : core (stBranch f l) = core l := by unfold stBranch; (repeat' split) <;> rfl
-@[simp] theorem core_stTree (f l) : core (stTree f l) = core l := by unfold stTree; (repeat' split) <;> rfl
 @[simp] theorem core_stUnbind (f l) : core (stUnbind f l) = core l := by unfold stUnbind; split <;> rfl
 @[simp] theorem core_stBind (f l) : core (stBind f l) = core l := by unfold stBind; split <;> rfl
 @[simp] theorem core_stDropRepo (f a l) : core (stDropRepo f a l) = core l := by unfold stDropRepo; split <;> rfl
-@[simp] theorem tp_stRepo (f l) : treePart (stRepo f l) = treePart l := by unfold stRepo; split <;> rfl
-@[simp] theorem tp_stBranch (f l) : treePart (stBranch f l) = treePart l := by unfold stBranch; (repeat' split) <;> rfl
-@[simp] theorem tp_stUnbind (f l) : treePart (stUnbind f l) = treePart l := by unfold stUnbind; split <;> rfl
-@[simp] theorem tp_stBind (f l) : treePart (stBind f l) = treePart l := by unfold stBind; split <;> rfl
-@[simp] theorem tp_stDropRepo (f a l) : treePart (stDropRepo f a l) = treePart l := by unfold stDropRepo; split <;> rfl
 
-theorem tp_stTree_congr (f : Flags) (x y : Loc) (h1 : treePart x = treePart y) (h2 : core x = core y) :
-    treePart (stTree f x) = treePart (stTree f y) := by
-  simp only [treePart, core, Prod.mk.injEq] at h1 h2
-  unfold stTree treePart
-  repeat' split
-  all_goals simp_all
+theorem keepsF_of_core (force : Bool) (l m m' : Loc) (hc : core m' = core m) (h : KeepsF force l m) : KeepsF force l m' := by
+  simp only [core, Prod.mk.injEq] at hc
+  obtain ⟨c1, c2, c3, c4, c5, c6, c7, c8, c9, c10⟩ := hc
+  unfold KeepsF TipKeeps RefKeeps TreeKeeps at *
+  rw [c1, c2, c3, c4, c5, c6, c7, c8, c9, c10]
+  exact h
 
-/-- every exit of `apply` leaves history, tags and format alone, and the tree either as it was or as `stTree` makes it -/
-theorem applyFlags_parts (l : Loc) (f : Flags) (force : Bool) :
-    core (applyFlags l f force).1 = core l ∧
-    (treePart (applyFlags l f force).1 = treePart l ∨
-     ((force = true ∨ f.destroyTree = false ∨ l.dirty = false) ∧ treePart (applyFlags l f force).1 = treePart (stTree f l))) := by
-  have hc : treePart (stTree f (stBranch f (stRepo f l))) = treePart (stTree f l) :=
-    tp_stTree_congr f _ _ (by simp) (by simp)
+/-- `stBranch` then `stTree`, on a state `m` that agrees with `l` on the observed part -/
+theorem keepsF_branch_tree (force : Bool) (l m : Loc) (f : Flags) (hc : core m = core l)
+    (hinv : NoConflict l.tags l.refTags)
+    (hd : f.destroyTree = true → l.tree = true) (hcr : f.createTree = true → l.tree = false)
+    (hsafe : f.destroyTree = true → l.dirty = false ∨ force = true) :
+    KeepsF force l (stTree f (stBranch f m)) := by
+  simp only [core, Prod.mk.injEq] at hc
+  obtain ⟨c1, c2, c3, c4, c5, c6, c7, c8, c9, c10⟩ := hc
+  have hm1 := mergeTo_keeps_source l.tags l.refTags hinv
+  have hm2 := mergeTo_keeps_dest l.tags l.refTags
+  have hm3 := mergeTo_from l.tags l.refTags
+  have hr := refKeeps_refl l hinv
+  unfold KeepsF TipKeeps RefKeeps TreeKeeps stTree stBranch
+  cases hdt : f.destroyTree <;> cases hct : f.createTree <;> cases hcf : f.createReference <;> cases hcb : f.createBranch <;>
+    cases hlt : l.tree <;> simp_all [noConflict_self, tagsSub_refl] <;>
+    first
+      | exact ⟨fun _ _ h => Or.inl h, fun _ _ h => Or.inr h⟩
+      | skip
+
+theorem applyFlags_keepsF (l : Loc) (f : Flags) (force : Bool) (hinv : NoConflict l.tags l.refTags)
+    (hd : f.destroyTree = true → l.tree = true) (hcr : f.createTree = true → l.tree = false) :
+    KeepsF force l (applyFlags l f force).1 := by
   unfold applyFlags
   split
-  · simp
+  · exact keepsF_refl force l hinv
   · rename_i h0
-    have hh : force = true ∨ f.destroyTree = false ∨ l.dirty = false := by
-      cases force <;> cases hdt : f.destroyTree <;> cases hdd : l.dirty <;> simp_all
+    have hsafe : f.destroyTree = true → l.dirty = false ∨ force = true := by
+      intro hdt
+      cases force <;> cases hdd : l.dirty <;> simp_all
+    have hbt := keepsF_branch_tree force l (stRepo f l) f (by simp) hinv hd hcr hsafe
     repeat' split
-    all_goals simp [hc, hh]
+    · exact keepsF_refl force l hinv
+    · exact keepsF_refl force l hinv
+    · exact keepsF_of_core force l l _ (by simp) (keepsF_refl force l hinv)
+    · exact keepsF_of_core force l l _ (by simp) (keepsF_refl force l hinv)
+    · exact keepsF_of_core force l _ _ (by simp) hbt
+    · exact keepsF_of_core force l _ _ (by simp) hbt
 
-theorem keeps_of_parts (l l' : Loc) (f : Flags) (hcore : core l' = core l)
-    (hd : f.destroyTree = true → l.tree = true) (hcr : f.createTree = true → l.tree = false)
-    (ht : treePart l' = treePart l ∨ ((f.destroyTree = false ∨ l.dirty = false) ∧ treePart l' = treePart (stTree f l))) :
-    Keeps l l' := by
-  simp only [core, treePart, Prod.mk.injEq] at hcore ht
-  unfold Keeps
-  obtain ⟨h1, h2, h3, h4⟩ := hcore
-  refine ⟨h1, h2, h3, h4, ?_⟩
-  rcases ht with ht | ⟨hsafe, ht⟩
-  · obtain ⟨a, b, c⟩ := ht
-    simp_all
-  · unfold stTree at ht
-    cases hdt : f.destroyTree <;> cases hct : f.createTree <;> cases hlt : l.tree <;> simp_all
-
-theorem keeps_refl (l : Loc) : Keeps l l := by
-  unfold Keeps
-  refine ⟨rfl, rfl, rfl, rfl, ?_, ?_, ?_⟩ <;> intro a b <;> simp_all
+/-- not forced: `_check` lets a reference be created only when the tips agree, so the tip never moves -/
+theorem applyFlags_tip (l : Loc) (f : Flags) (hinv : RefInv l) (hcr : f.createReference = true → l.branch ≠ .reference) :
+    (applyFlags l f false).1.tip = l.tip ∧ (applyFlags l f false).1.hist = l.hist := by
+  have hcore : ∀ m : Loc, core m = core l → (f.createReference = true → l.refTip = l.tip) →
+      (stTree f (stBranch f m)).tip = l.tip ∧ (stTree f (stBranch f m)).hist = l.hist := by
+    intro m hc hs
+    simp only [core, Prod.mk.injEq] at hc
+    obtain ⟨c1, c2, c3, c4, c5, c6, c7, c8, c9, c10⟩ := hc
+    unfold stTree stBranch
+    cases hdt : f.destroyTree <;> cases hct : f.createTree <;> cases hcf : f.createReference <;> cases hcb : f.createBranch <;>
+      simp_all [RefInv]
+  have tipOf : ∀ m m' : Loc, core m' = core m → m'.tip = m.tip ∧ m'.hist = m.hist := by
+    intro m m' hc
+    simp only [core, Prod.mk.injEq] at hc
+    exact ⟨hc.1, hc.2.1⟩
+  unfold applyFlags
+  simp only [Bool.not_false, Bool.true_and]
+  have hsync : ¬(f.createReference && l.branch != BK.reference && !l.synced) = true →
+      f.createReference = true → l.refTip = l.tip := by
+    intro h3 hcf
+    have hb := hcr hcf
+    have : l.synced = true := by
+      cases hsy : l.synced
+      · exfalso; apply h3; simp [hcf, hsy]; exact hb
+      · rfl
+    simpa [Loc.synced] using this
+  repeat' split
+  · exact ⟨rfl, rfl⟩
+  · exact ⟨rfl, rfl⟩
+  · exact ⟨rfl, rfl⟩
+  · exact tipOf l _ (by simp)
+  · exact tipOf l _ (by simp)
+  · rename_i h1 h2 h3 h4 h5 h6
+    have := hcore (stRepo f l) (by simp) (hsync h3)
+    have t2 := tipOf (stTree f (stBranch f (stRepo f l))) (stUnbind f (stTree f (stBranch f (stRepo f l)))) (by simp)
+    exact ⟨t2.1.trans this.1, t2.2.trans this.2⟩
+  · rename_i h1 h2 h3 h4 h5 h6
+    have := hcore (stRepo f l) (by simp) (hsync h3)
+    have t2 := tipOf (stTree f (stBranch f (stRepo f l)))
+      (stDropRepo f l.sharedAbove (stBind f (stUnbind f (stTree f (stBranch f (stRepo f l)))))) (by simp)
+    exact ⟨t2.1.trans this.1, t2.2.trans this.2⟩
 
 end BreezyVerif.C52
